@@ -79,11 +79,26 @@ Theorem C14_snapshot_not_lost : forall (prior : option bytes) (n : nat) (l : lis
 Proof. exact snapshot_not_lost. Qed.
 Print Assumptions C14_snapshot_not_lost.
 
-(* the update lock gives mutual exclusion of the load-modify-save sections *)
-Theorem C14_update_lock_exclusive : forall (s : sys) (q q' : pid) (r r' : proc),
-  Inv2 s -> procs s q = Some r -> procs s q' = Some r' -> uh r <> None -> uh r' <> None -> q = q'.
-Proof. exact excl. Qed.
+(* the update lock gives mutual exclusion of the load-modify-save sections. The lock is taken on
+   the INODE the name <file>.lock denoted when the process opened it ([PUpd (Some i)], then
+   [uh r = Some i]); exclusion follows because that name is never unbound or rebound, so all
+   processes lock the same inode (next theorem). A variant of the code that unlinks the lock
+   file breaks exactly this invariant. *)
+Theorem C14_update_lock_exclusive : forall (prior : option bytes) (n : nat) (l : list (pid * cmd)) (sched : list pid)
+    (q q' : pid) (r r' : proc),
+  Forall (fun pc => good_cmd (snd pc)) l ->
+  let s := exec (init_sys prior n l) sched in
+  procs s q = Some r -> procs s q' = Some r' -> uh r <> None -> uh r' <> None -> q = q'.
+Proof. exact update_lock_exclusive_sched. Qed.
 Print Assumptions C14_update_lock_exclusive.
+
+Theorem C14_update_lock_name_stable : forall (prior : option bytes) (n : nat) (l : list (pid * cmd)) (sched : list pid)
+    (q : pid) (r : proc) (i : inode),
+  Forall (fun pc => good_cmd (snd pc)) l ->
+  let s := exec (init_sys prior n l) sched in
+  procs s q = Some r -> (ph r = PUpd (Some i) \/ uh r = Some i) -> names (sfs s) Side = Some i.
+Proof. exact update_lock_name_stable. Qed.
+Print Assumptions C14_update_lock_name_stable.
 
 (* lost updates characterised, for ANY writers (with or without the update lock): every document
    ever renamed into place is its writer's update applied to the document that writer had read --
